@@ -117,6 +117,26 @@ def oracle_regions(script, variant):
     return None
 
 
+EXPECTED_LONG = {'many-statements': None, 'long-error-run': None, 'many-items': 1}
+
+
+def long_split_failure(kind, text, span):
+    """The long inputs are built as `select 1; update ... <region> ...; select 2;` (3 statements) resp. 2 / n statements."""
+    import sqlparse
+    if kind == 'long-error-run':
+        return None
+    want = text.count('select 1;') if kind == 'many-statements' else 1 if kind == 'many-items' else 3 if span else 2
+    try:
+        got = len(sqlparse.split(text))
+    except Exception:  # noqa
+        return None
+    if got != want:
+        return {'input': [ord(c) for c in text[:200]], 'kind': 'long_input', 'long_input': {'kind': kind, 'length': len(text)},
+                'written': want, 'returned': got,
+                'observed': 'long input (%s, %d characters): %d statements written, split() returned %d' % (kind, len(text), want, got)}
+    return None
+
+
 def classify(f, known):
     s = ''.join(map(chr, f.get('input', [])))
     for k in known:
@@ -170,6 +190,12 @@ def run(ctx):
                 nreg += 1
                 if r:
                     res['failures'].append(r)
+    # long opaque regions with `;` inside, many statements (oracle only): thresholds on token / input size
+    for kind, text, span in gens.long_cases(ctx.quick()):
+        f = long_split_failure(kind, text, span)
+        if f:
+            res['failures'].append(f)
+        dist['long:' + kind] += 1
     # correspondence: the splitter model against the implementation, statement by statement
     texts_all = common.corpus('split') + scripts[:ctx.n(1500, 20000)] + [gens.mixed_text(ctx.rng)[0] for _ in range(ctx.n(500, 5000))]
     dis, dumps = common.corr_stage('splitstream', texts_all, impl.splitstream_dump, 'splitstream')
@@ -233,6 +259,11 @@ def replay(payload):
     if f.get('kind') == 'region_replacement':
         r = oracle_regions(s, ''.join(map(chr, f['variant'])))
         return {'fails': bool(r) and r != 'skip', 'observed': r}
+    if f.get('long_input'):
+        lc = common.long_case_text(f)
+        if lc:
+            g = long_split_failure(*lc)
+            return {'fails': bool(g), 'observed': g}
     if f.get('form') == 'stream':
         import io
         n = len(sqlparse.split(io.StringIO(s)))
